@@ -207,4 +207,140 @@ def canonicalise(trees: Dict[str, ast.Module]) -> Dict[str, str]:
                 _rename_everywhere(trees, cands[0][1], f)
                 renames[cands[0][1]] = f
                 new_f.remove(cands[0][1])
+        # one field gone, one field new, both set up by the constructor and declared in the class body: the new one took its place
+        # (its uses may have moved into new helper methods, so the use profiles need not be alike)
+        missing_f = [f for f in kfields if f not in have and f not in renames.values()]
+        if len(missing_f) == 1 and len(new_f) == 1:
+            f, n = missing_f[0], new_f[0]
+            if kfields[f].get("__init__:store") and have[n].get("__init__:store") and kfields[f].get("<class>:ann") and have[n].get("<class>:ann"):
+                _rename_everywhere(trees, n, f)
+                renames[n] = f
     return renames
+
+
+def relocate_methods(trees: Dict[str, ast.Module]) -> Dict[str, str]:
+    """A method `C.m(self, p)` of the pinned tree that a later change moved into the value class of its parameter:
+    `V.g(self_v, y)` on a NamedTuple `V` that is new in the same module, called from C's methods as `x.g(self.F)` (or `x.g(n)` right after
+    `self.F = n`).  The method is put back as `def m(self, p: V): return p.g(self.F)` and those calls become `self.m(x)`: the rules find
+    their anchor, and the engine reads the moved body through the call (a method of a value class on a typed receiver is spliced).
+    Only when there is exactly one candidate (V, g) and every call of g inside C passes the same field.  Returns {"mod.C.m": "mod.V.g"}."""
+    inv = load_inventory()
+    if inv is None:
+        return {}
+    out: Dict[str, str] = {}
+    cur = {}
+    for modname, tree in trees.items():
+        for qn, cont, node, cls in _functions(tree, modname):
+            cur.setdefault(qn, node)
+    for q, rec in inv["functions"].items():
+        if q in cur or len(rec["params"]) != 2:
+            continue
+        cont = rec["container"]
+        modname = next((m for m in trees if cont.startswith(m + ".") and cont[len(m) + 1:].count(".") == 0), None)
+        if modname is None:
+            continue
+        tree = trees[modname]
+        cname = cont[len(modname) + 1:]
+        cnode = next((n for n in tree.body if isinstance(n, ast.ClassDef) and n.name == cname), None)
+        if cnode is None:
+            continue
+        old = q.rsplit(".", 1)[-1]
+        cands = []
+        for v in tree.body:
+            if not isinstance(v, ast.ClassDef) or f"{modname}.{v.name}" in inv.get("fields", {}) or v is cnode:
+                continue
+            if not any((isinstance(b, ast.Name) and b.id == "NamedTuple") or (isinstance(b, ast.Attribute) and b.attr == "NamedTuple") for b in v.bases):
+                continue
+            for g in v.body:
+                if isinstance(g, ast.FunctionDef) and len(g.args.args) == 2 and not g.decorator_list and f"{modname}.{v.name}.{g.name}" not in inv["functions"]:
+                    cands.append((v, g))
+        hits = []
+        for v, g in cands:
+            sites = []
+            ok = True
+            for m in cnode.body:
+                if not isinstance(m, (ast.FunctionDef, ast.AsyncFunctionDef)) or not m.args.args:
+                    continue
+                me = m.args.args[0].arg
+                stored = {}      # name -> field, for `self.F = name` at statement level
+                for st in ast.walk(m):
+                    if isinstance(st, ast.Assign) and len(st.targets) == 1 and isinstance(st.targets[0], ast.Attribute) and isinstance(st.targets[0].value, ast.Name) \
+                            and st.targets[0].value.id == me and isinstance(st.value, ast.Name):
+                        stored[st.value.id] = (st.targets[0].attr, st.lineno)
+                for n in ast.walk(m):
+                    if isinstance(n, ast.Call) and isinstance(n.func, ast.Attribute) and n.func.attr == g.name and len(n.args) == 1 and not n.keywords:
+                        y = n.args[0]
+                        fld = None
+                        if isinstance(y, ast.Attribute) and isinstance(y.value, ast.Name) and y.value.id == me:
+                            fld = y.attr
+                        elif isinstance(y, ast.Name) and y.id in stored and stored[y.id][1] < n.lineno:
+                            fld = stored[y.id][0]
+                        if fld is None:
+                            ok = False
+                        else:
+                            sites.append((n, me, fld))
+            flds = {f for _, _, f in sites}
+            if ok and sites and len(flds) == 1:
+                hits.append((v, g, sites, flds.pop()))
+        if len(hits) != 1:
+            continue
+        v, g, sites, fld = hits[0]
+        p = rec["params"][1]
+        src = f"def {old}(self, {p}: {v.name}):\n    return {p}.{g.name}(self.{fld})\n"
+        new_m = ast.parse(src).body[0]
+        ref = sites[0][0]
+        for n in ast.walk(new_m):
+            if hasattr(n, "lineno") or isinstance(n, (ast.expr, ast.stmt, ast.arg)):
+                n.lineno = getattr(g, "lineno", 1)
+                n.end_lineno = getattr(g, "lineno", 1)
+                n.col_offset = 0
+                n.end_col_offset = 0
+        cnode.body.append(new_m)
+        for n, me, _f in sites:
+            recv = n.func.value
+            n.func = ast.copy_location(ast.Attribute(value=ast.copy_location(ast.Name(id=me, ctx=ast.Load()), n), attr=old, ctx=ast.Load()), n)
+            n.args = [recv]
+        out[q] = f"{modname}.{v.name}.{g.name}"
+    return out
+
+
+def rename_by_callers(trees: Dict[str, ast.Module]) -> Dict[str, str]:
+    """A method `C.m` of the pinned tree that is missing, while every method of C that called it in the pinned tree (inventory:
+    the attribute name m among the caller's features) now calls -- through its first parameter -- one and the same method X that
+    is new in C, of the same kind (sync / async): X took m's place (renamed *and* given another signature, so the feature-based
+    match of `canonicalise` does not see it).  X is renamed back to m everywhere.  Returns {X: m}."""
+    inv = load_inventory()
+    if inv is None:
+        return {}
+    out: Dict[str, str] = {}
+    cur: Dict[str, Tuple[str, ast.AST]] = {}
+    for modname, tree in trees.items():
+        for qn, cont, node, cls in _functions(tree, modname):
+            cur.setdefault(qn, (cont, node))
+    known_simple = {q.rsplit(".", 1)[-1] for q in inv["functions"]} | {f for fs in inv["fields"].values() for f in fs}
+    for q, rec in inv["functions"].items():
+        if q in cur:
+            continue
+        cont, old = rec["container"], q.rsplit(".", 1)[-1]
+        if cont not in inv.get("fields", {}):
+            continue        # not a method of a class
+        callers = [k for k, r in inv["functions"].items() if r["container"] == cont and k != q and r["features"].get(f"a:{old}")]
+        if not callers or any(k not in cur for k in callers):
+            continue
+        was_async = bool(rec["features"].get("async"))
+        names = None
+        for k in callers:
+            node = cur[k][1]
+            if not node.args.args:
+                names = set()
+                break
+            me = node.args.args[0].arg
+            called = {n.func.attr for n in ast.walk(node) if isinstance(n, ast.Call) and isinstance(n.func, ast.Attribute) and isinstance(n.func.value, ast.Name) and n.func.value.id == me}
+            called = {x for x in called if f"{cont}.{x}" in cur and f"{cont}.{x}" not in inv["functions"] and x not in known_simple
+                      and isinstance(cur[f"{cont}.{x}"][1], ast.AsyncFunctionDef) == was_async}
+            names = called if names is None else names & called
+        if names is not None and len(names) == 1:
+            new = next(iter(names))
+            _rename_everywhere(trees, new, old)
+            out[new] = old
+    return out
